@@ -13,7 +13,8 @@ ID = "C04"
 RULE = (
     "complete product of surface set x planform x nx x ny_half x alpha x drag options x Mach x compressible x ground effect x area type "
     "(part aero) and structure model x load options (part as); each state builds the symmetric half model and the harness-mirrored "
-    "full-span model with the real code and compares every listed output; non-trivial = forces non-zero"
+    "full-span model with the real code and compares every listed output; part as2: wing + tail in one AerostructPoint modelled half/half, half/full, "
+    "full/half against full/full (two size pairs so that mixed models have equal modelled lattice shapes) x structure model x weight relief; non-trivial = forces non-zero"
 )
 ASSUMPTIONS = [
     "finite alphabets (alpha, Mach, planforms); nx<=4, half ny<=4, <=3 surfaces",
